@@ -41,6 +41,8 @@ type Ctx struct {
 	sites       map[*ssa.Function][]ssa.CallInstruction
 	bindParam   map[*ssa.Parameter]ssa.Value
 	curRoot     *ssa.Function // the function a guard-obligation context is analysing
+	frozen      map[*ssa.Global]bool
+	initCells   map[*ssa.Package]map[*ssa.Global]*cell
 	stats       struct {
 		packages, functions, blocks, instrs int
 	}
@@ -158,6 +160,10 @@ func (c *Ctx) InModule(fn *ssa.Function) bool {
 	}
 	p := pkgPathOf(fn)
 	return p == modPath || strings.HasPrefix(p, modPath+"/")
+}
+
+func (c *Ctx) InModulePkg(p *types.Package) bool {
+	return p != nil && (p.Path() == modPath || strings.HasPrefix(p.Path(), modPath+"/"))
 }
 
 // InScope: function belongs to one of the analysed packages.
@@ -627,6 +633,20 @@ func (c *Ctx) dom(a, b *ssa.BasicBlock, depth int) bool {
 	}
 	if c.IsNew(b.Parent()) {
 		sites := c.callSites(b.Parent())
+		if !c.IsNew(a.Parent()) && len(sites) > 1 {
+			// a helper shared by several functions: the calls made on behalf of a's function
+			inRoot := map[*ssa.Function]bool{}
+			for _, g := range c.Group(a.Parent()) {
+				inRoot[g] = true
+			}
+			var mine []ssa.CallInstruction
+			for _, s := range sites {
+				if inRoot[s.Parent()] {
+					mine = append(mine, s)
+				}
+			}
+			sites = mine
+		}
 		if len(sites) == 0 {
 			return false
 		}
